@@ -1,5 +1,133 @@
 import Driver.Common
-/-! Driver for C18 (stub: not built yet). -/
-def main (_args : List String) : IO UInt32 := do
-  IO.eprintln "C18: driver not implemented"
-  return 2
+import CoapVerif.Model.Monitor
+import CoapVerif.Spec.Monitor
+/-!
+Driver for C18.  Lines: `cfg <periodNs> <maxRetries|-> <t0>`, `recv <t>`, `pong <g> <t>`, `tick <t>`, `datagram <t>`.
+`model`: outputs of the model step (`ping g`, `cancelping g`, `close`, or `none`).
+`judge`: `<input> | <observed>`: reference monitor written from the property (latest message time, streak of idle
+firings): a tick within the period does nothing; an idle tick closes (plain) / sends exactly one new ping, or closes
+when more than maxRetries consecutive idle firings happened since the latest message (keep-alive).
+-/
+namespace Driver.C18
+open CoapVerif CoapVerif.Spec.Monitor
+
+def fmtOut : Out → String
+  | .ping g => s!"ping {g}"
+  | .cancelPing g => s!"cancelping {g}"
+  | .close => "close"
+
+def joinOut (l : List String) : String := if l.isEmpty then "none" else " ; ".intercalate l
+
+structure MState where
+  cfg : Model.Monitor.Cfg := ⟨0, none⟩
+  st : Model.Monitor.St := Model.Monitor.init 0
+
+def parseEv (ws : List String) : Option Ev :=
+  match ws with
+  | ["recv", t] => (parseInt? t).map Ev.recv
+  | ["pong", g, t] => do let g ← g.toNat?; let t ← parseInt? t; some (Ev.pong g t)
+  | ["tick", t] => (parseInt? t).map Ev.tick
+  | ["datagram", t] => (parseInt? t).map Ev.datagram
+  | _ => none
+
+def parseCfg (ws : List String) : Option (Model.Monitor.Cfg × Int) :=
+  match ws with
+  | ["cfg", p, n, t0] => do
+    let p ← parseInt? p
+    let t0 ← parseInt? t0
+    let n ← if n = "-" then some none else n.toNat?.map some
+    some (⟨p, n⟩, t0)
+  | _ => none
+
+def modelStep (s : MState) (line : String) : MState × String :=
+  let ws := words line
+  match parseCfg ws with
+  | some (cfg, t0) => ({ cfg := cfg, st := Model.Monitor.init t0 }, "ok")
+  | none =>
+    match parseEv ws with
+    | some ev =>
+      let (st', out) := Model.Monitor.step s.cfg s.st ev
+      ({ s with st := st' }, joinOut (out.map fmtOut))
+    | none => (s, if ws == ["end"] then "end" else "bad-op")
+
+structure JState where
+  period : Int := 0
+  maxRetries : Option Nat := none
+  last : Int := 0
+  streak : Nat := 0
+  pings : Nat := 0
+  closed : Bool := false
+
+def parseObs (s : String) : Option (List Out) :=
+  if s = "none" then some [] else
+  (s.splitOn " ; ").foldr (fun part acc => do
+    let acc ← acc
+    match words part with
+    | ["ping", g] => g.toNat?.map (fun g => Out.ping g :: acc)
+    | ["cancelping", g] => g.toNat?.map (fun g => Out.cancelPing g :: acc)
+    | ["close"] => some (Out.close :: acc)
+    | _ => none) (some [])
+
+def judgeLine (s : JState) (line : String) : JState × String :=
+  match line.splitOn " | " with
+  | [inp] =>
+    match parseCfg (words inp) with
+    | some (cfg, t0) => ({ period := cfg.period, maxRetries := cfg.maxRetries, last := t0 }, "ok")
+    | none => (s, if words inp == ["end"] then "end" else "bad-op")
+  | [inp, obs] =>
+    match parseEv (words inp), parseObs obs with
+    | some ev, some outs =>
+      let pingsOut := outs.filterMap (fun o => match o with | .ping g => some g | _ => none)
+      let closes := outs.any (· == Out.close)
+      if s.closed then
+        (s, if outs.isEmpty then "ok" else "violates activity after the connection was closed")
+      else
+      match ev with
+      | .recv t => ({ s with last := t, streak := 0 }, if pingsOut.isEmpty && !closes then "ok" else "violates a received message triggered a ping or a close")
+      | .pong _ t => ({ s with last := t, streak := 0 }, if pingsOut.isEmpty && !closes then "ok" else "violates a pong triggered a ping or a close")
+      | .datagram t =>
+        -- datagram server: the arrival of the peer's own datagram must never close its connection unless it was
+        -- silent for more than a full period
+        let idle := s.period ≠ 0 ∧ t > s.last + s.period
+        if closes && !idle then ({ s with closed := true }, "violates closed on a datagram although the peer was not silent for a full period")
+        else ({ s with last := t, streak := 0, closed := closes }, "ok")
+      | .tick t =>
+        let idle := s.period ≠ 0 ∧ t > s.last + s.period
+        if !idle then
+          (s, if outs.isEmpty then "ok" else "violates tick within the period caused a ping or a close")
+        else
+          match s.maxRetries with
+          | none =>
+            if closes then ({ s with closed := true }, "ok")
+            else (s, "violates not closed at the first tick after a full silent period")
+          | some n =>
+            let k := s.streak + 1
+            if k > n then
+              if closes && pingsOut.isEmpty then ({ s with closed := true, streak := k }, "ok")
+              else (s, s!"violates {k} consecutive idle firings (> {n}) since the latest message but the connection was not closed")
+            else
+              if closes then ({ s with closed := true }, s!"violates closed after only {s.streak} consecutive unanswered pings (limit {n})")
+              else if pingsOut == [s.pings + 1] then ({ s with streak := k, pings := s.pings + 1 }, "ok")
+              else (s, s!"violates idle firing {k} did not send exactly one new ping (saw {pingsOut})")
+    | _, _ => (s, "violates unparsable-observation")
+  | _ => (s, "bad-op")
+
+end Driver.C18
+
+def main (args : List String) : IO UInt32 := do
+  let stdin ← IO.getStdin
+  let stdout ← IO.getStdout
+  match args with
+  | ["model"] =>
+    let _ ← Driver.foldLines stdin ({} : Driver.C18.MState) fun s l => do
+      let (s', o) := Driver.C18.modelStep s l
+      stdout.putStrLn o
+      pure s'
+  | ["judge"] =>
+    let _ ← Driver.foldLines stdin ({} : Driver.C18.JState) fun s l => do
+      let (s', o) := Driver.C18.judgeLine s l
+      stdout.putStrLn o
+      pure s'
+  | _ => IO.eprintln "usage: drv_c18 model|judge"; return 2
+  stdout.flush
+  return 0
